@@ -70,6 +70,8 @@ type FuncSpec struct {
 	Covers    []*Clause
 	Decreases []*Clause
 	Alias     string
+	IterInv   []*Clause // iterate invariant: invariants of an iterator call (range-over-func), may mention iterk
+	Modifies  []string // ghost heap entries the callee may change: NAME(keyexpr)
 	Facts     []*Clause // fact EXPR: assumed about the closure value `self` when the literal escapes
 	ChanInvs  []*Clause // chaninv NAME EXPR (Clause.Mark = channel variable name)
 	EffectStruct string // for `effect fields`: the struct whose fields are listed (effectstruct NAME)
@@ -86,6 +88,15 @@ type EventDecl struct {
 	Pattern string // callee pattern
 	Key     SE
 	KeyText string
+	Record  bool // keep the arguments of every call: nth(ev, k, i)
+	RecordArgs map[int]Sort
+}
+
+// GhostHeap: spec-level state  NAME(key) : Val, havoc'd like any heap.
+type GhostHeap struct {
+	Name     string
+	Key, Val Sort
+	Mono     string // optional binary predicate: after a havoc, Mono(new(k), old(k)) for all k
 }
 
 type GuardDecl struct{ Struct, Field, MuStruct, Mu string }
@@ -112,6 +123,7 @@ type SpecDB struct {
 	ImmutableProps map[string][]string
 	Atomic map[string][]string
 	Files     []string
+	GhostHeaps map[string]*GhostHeap
 }
 
 // SpecDef is a named spec-level macro: def name(a, b) EXPR
@@ -123,13 +135,13 @@ type SpecDef struct {
 
 func NewSpecDB() *SpecDB {
 	return &SpecDB{Funcs: map[string]*FuncSpec{}, Callbacks: map[string]*FuncSpec{}, Methods: map[string]*FuncSpec{},
-		Ghosts: map[string]*GhostFn{}, Immutable: map[string]bool{}, Levels: map[string]int{}, Defs: map[string]*SpecDef{}, InitWriters: map[string]bool{}, ImmutableProps: map[string][]string{}, Atomic: map[string][]string{}}
+		Ghosts: map[string]*GhostFn{}, Immutable: map[string]bool{}, Levels: map[string]int{}, Defs: map[string]*SpecDef{}, InitWriters: map[string]bool{}, GhostHeaps: map[string]*GhostHeap{}, ImmutableProps: map[string][]string{}, Atomic: map[string][]string{}}
 }
 
 var keywords = map[string]bool{"func": true, "callback": true, "method": true, "props": true, "requires": true,
 	"ensures": true, "onpanic": true, "loop": true, "at": true, "maypanic": true, "effect": true, "trusted": true,
 	"ghost": true, "axiom": true, "event": true, "guarded": true, "immutable": true, "lockinv": true, "level": true,
-	"inline": true, "def": true, "unlocked": true, "cover": true, "alias": true, "initwriter": true, "atomic": true, "effectstruct": true, "chaninv": true, "fact": true}
+	"inline": true, "def": true, "unlocked": true, "cover": true, "alias": true, "initwriter": true, "atomic": true, "effectstruct": true, "chaninv": true, "fact": true, "ghostheap": true, "modifies": true, "iterate": true}
 
 var reLabel = regexp.MustCompile(`^\[([^\]]+)\]\s*`)
 var reProps = regexp.MustCompile(`^\{([^}]*)\}\s*`)
@@ -325,6 +337,21 @@ func (db *SpecDB) LoadFile(path string) error {
 				return fail(fmt.Errorf("bad event decl"))
 			}
 			ev := &EventDecl{Name: m[1], Pattern: m[2], KeyText: m[3]}
+			if k := strings.Index(ev.Pattern, " record"); k >= 0 {
+				spec := strings.Fields(ev.Pattern[k+len(" record"):])
+				ev.Pattern = strings.TrimSpace(ev.Pattern[:k])
+				ev.Record = true
+				ev.RecordArgs = map[int]Sort{}
+				for _, f := range spec {
+					parts := strings.SplitN(f, ":", 2)
+					if n, err := strconv.Atoi(parts[0]); err == nil && len(parts) == 2 {
+						ev.RecordArgs[n] = specSort(parts[1])
+					}
+				}
+				if len(ev.RecordArgs) == 0 {
+					ev.RecordArgs[1] = SInt
+				}
+			}
 			if m[3] != "" {
 				k, err := parseSE(m[3])
 				if err != nil {
@@ -333,6 +360,28 @@ func (db *SpecDB) LoadFile(path string) error {
 				ev.Key = k
 			}
 			db.Events = append(db.Events, ev)
+		case "iterate":
+			sub, r3 := splitWord(rest)
+			if sub != "invariant" {
+				return fail(fmt.Errorf("expected `iterate invariant`"))
+			}
+			c, err := parseClause("iterinv", r3, pos)
+			if err != nil {
+				return fail(err)
+			}
+			cur.IterInv = append(cur.IterInv, c)
+		case "ghostheap":
+			f := strings.Fields(rest)
+			if len(f) < 3 {
+				return fail(fmt.Errorf("ghostheap NAME KeySort ValSort [mono PRED]"))
+			}
+			gh := &GhostHeap{Name: f[0], Key: specSort(f[1]), Val: specSort(f[2])}
+			if len(f) == 5 && f[3] == "mono" {
+				gh.Mono = f[4]
+			}
+			db.GhostHeaps[gh.Name] = gh
+		case "modifies":
+			cur.Modifies = append(cur.Modifies, strings.TrimSpace(rest))
 		case "guarded":
 			m := regexp.MustCompile(`^(\w+)\.(\w+)\s+by\s+(\w+)\.(\w+)$`).FindStringSubmatch(rest)
 			if m == nil {
